@@ -146,8 +146,8 @@ def workload(case):
             while True:
                 peer_poll()
                 maxlimit[0] = max(maxlimit[0], s._outgoing_concurrency.max_concurrent)
-                woken = sum(1 for f in (conc._semaphore._waiters or ()) if f.done() and not f.cancelled())
-                inside = conc._sem_value - conc._semaphore._value - woken      # callers between write and outcome
+                # callers between write and outcome, counted from what they did (not from the limiter's own books)
+                inside = sum(1 for i in wtimes if i not in calls)
                 done_written = sum(1 for k in calls if k in wtimes)      # finished callers that had entered for sure
                 hist.append((loop.time(), inside, maxlimit[0], conc.max_concurrent, done_written, conc._sem_value))
                 backlog[0] = max(backlog[0], len(s._req_times))
@@ -260,6 +260,11 @@ class C20(Prop):
             {'kind': 'workload', 'cfg': {'timeout': 5.0, 'trt': 0.5, 'recal': 5}, 'peer': [['garbage', 2.0], ['answer', 3.0], ['never']],
              'callers': [{'start': 0, 'batch': 0}] * 150 + [{'start': 1.0, 'batch': 2}] * 10, 'lose_at': None, 'horizon': 600},
         ]
+        # 45 of 50 slots in use, ten slow answers lower the limit while five slots are idle, then a backlog arrives:
+        # the lowered limit must take effect as the outstanding requests complete
+        directed.append({'kind': 'workload', 'cfg': {'timeout': 300.0, 'trt': 0.05, 'recal': 10},
+                         'peer': [['answer', 1.0]] * 10 + [['answer', 20.0 + 0.5 * i] for i in range(35)] + [['answer', 60.0]] * 60,
+                         'callers': [{'start': 0, 'batch': 0}] * 45 + [{'start': 2.0, 'batch': 0}] * 60, 'lose_at': None, 'horizon': 900})
         for w in range(nw + len(directed)):
             ncall = rng.choice([1, 3, 10, 40, 120])
             timeout = rng.choice([30.0, 5.0, 1.0])
@@ -305,7 +310,37 @@ class C20(Prop):
                         clause = 'TaskTimeout before the response wait limit had passed'
             if clause:
                 out.append(Failure(case, o, clause))
-        return out
+        # the outgoing limiter is the same Concurrency class as the incoming one: its per-handle trace acceptance
+        # against model/Limiter.v (the model C20's limiter theorems are about) is part of this check too
+        if ctx['build_ok']:
+            from harness import core
+            from harness.props.c13 import PROP as LIM
+            ntr = 120 if ctx['tier'] == 'quick' else 1500
+            lcases = list(LIM.generate(rng, ntr, ctx['tier']))
+            lobs = core.run_impl_all(LIM, lcases)
+            terms, idx = [], []
+            for i, (c, ob) in enumerate(zip(lcases, lobs)):
+                if isinstance(ob, dict) and ('__driver_error__' in ob or '__skipped_after_hangs__' in ob):
+                    out.append(Failure(c, ob, 'limiter trace: ' + str(ob.get('__driver_error__', 'hang'))))
+                    continue
+                cl = LIM.oracle(c, ob)
+                if cl:
+                    out.append(Failure(c, ob, 'outgoing limiter (Concurrency): ' + cl))
+                tm = LIM.coq_case(c, ob)
+                if tm is not None:
+                    terms.append(tm)
+                    idx.append(i)
+            mism, errors = core.eval_cases('C20lim', LIM.coq_header, LIM.case_type, LIM.check_fn, terms, shard=LIM.shard)
+            for k, err in errors:
+                ctx['broken'].append({'kind': 'correspondence', 'what': f'limiter cases shard {k} did not evaluate: {err[-600:]}'})
+            bad = [idx[j] for j in mism if not any(f.case is lcases[idx[j]] for f in out)]
+            if bad:
+                ctx['broken'].append({'kind': 'correspondence',
+                                      'what': f'model/Limiter.v and the real Concurrency differ on {len(bad)} of {len(terms)} traces '
+                                              '(correspondence check c13_ok)', 'case': lcases[bad[0]]})
+            ctx['extra_evals'] += len(terms)
+            ctx['notes'].append(f'limiter traces accepted by model/Limiter.v: {len(terms) - len(mism)} of {len(terms)}')
+        return out[:6]
 
 
 PROP = C20()
